@@ -41,6 +41,7 @@ func checkC11(c *Ctx, r *Report) {
 	r.rule("C11.R7", "the only 5xx answer of the handlers lies behind a failed read of the request body, and what is read is the request's own body: no code of the module replaces http.Request.Body (a size-limiting reader makes the read fail - and the handler answer 500 - for a long but valid request)", 1)
 	r.rule("C11.R8", "a recharging path parameter that is not of the form <ueId>_<ratingGroup> is answered 4xx: the parts of the parameter are used only where their number is known to be exactly two", 1)
 	r.rule("C11.R9", "no request can block on a lock its own call chain already holds (shared with C09.R3): such a request never returns and keeps its subscriber - and everybody queuing behind the lock - waiting", 1)
+	r.rule("C11.R10", "every request body is decoded into an empty object made for this request (encoding/json only sets the members present in the body): the checks on mandatory members look at this request, not at what an earlier one left behind", 3)
 	r.rule("C11.R5", "every problem status built in the API/processor is a 4xx constant", 8)
 
 	entries := httpEntries(c)
@@ -145,6 +146,7 @@ func checkC11(c *Ctx, r *Report) {
 
 	// ---- R8: the recharging path parameter is <ueId>_<ratingGroup>: exactly two parts
 	c11RechargeParamShape(c, r, "C11.R8")
+	jsonFreshTargets(c, r, "C11.R10")
 	r.shareFrom(c, checkC09, map[string]string{"C09.R3": "C11.R9"})
 
 	// ---- R7
@@ -1304,4 +1306,30 @@ func c11RechargeParamShape(c *Ctx, r *Report, rule string) {
 	}
 	exact := len(admitted) == 1 && admitted[0] == 2
 	r.check(exact, rule, key, posOf(c, use), "used only where the parameter has exactly two parts", fmt.Sprintf("the parts of the recharging parameter are used where it may have %v parts: a parameter such as <ueId>_1_2 is not of the form <ueId>_<ratingGroup>, yet it is accepted (answered 204, the recharge is performed) instead of being answered with a 4xx problem", admitted))
+}
+
+// jsonFreshTargets (C11.R10 / C12.R12): the request objects of the SBI handlers.
+func jsonFreshTargets(c *Ctx, r *Report, rule string) {
+	n := freshDecodeTargets(c, r, rule, func(f *ssa.Function, call *ssa.Call) int {
+		root := rootOf(f)
+		if root.Pkg == nil || !strings.Contains(root.Pkg.Pkg.Path(), "/internal/sbi") {
+			return -1
+		}
+		obj := calleeObj(&call.Call)
+		if obj.Pkg() == nil {
+			return -1
+		}
+		switch {
+		case obj.Pkg().Path() == "github.com/free5gc/openapi" && obj.Name() == "Deserialize":
+			return 0
+		case obj.Pkg().Path() == "encoding/json" && obj.Name() == "Unmarshal" && obj.Type().(*types.Signature).Recv() == nil:
+			return 1
+		case obj.Pkg().Path() == "github.com/gin-gonic/gin" && (obj.Name() == "ShouldBindJSON" || obj.Name() == "BindJSON" || obj.Name() == "ShouldBind" || obj.Name() == "Bind"):
+			return len(call.Call.Args) - 1
+		}
+		return -1
+	}, "the request body", "members the body does not carry keep whatever the object held before (a pooled or shared request object)", "a mandatory member missing from this request is found filled in from an earlier one: the request is accepted (2xx) and acts under another consumer's or subscriber's data instead of being answered 4xx")
+	if n == 0 {
+		r.viol(rule, "request decoding", "", "no JSON decoding of a request body found in internal/sbi (anchor moved)")
+	}
 }
